@@ -13,6 +13,11 @@
    cell: excluded statically by Values.scope_ok.  A function value is only ever entered when its body is in the
    core (`core_ok_list true`), else ENotCore -- closures are built from the program text,
    so for a core program this never fires (checked on every correspondence run).
+   Early exits: a statement list ends with a signal (Values.sig).  X / x are lowered as
+   Transpile.break_text / recurse_text say for the parent class the parser recorded; the
+   bookkeeping pops stand BEFORE the jump, exactly as emitted.  `break` / `continue` are
+   absorbed by the Python loop, `return ret` by the def; a signal that reaches a place where
+   Python would reject the code (break outside a loop, ...) is ENotCore.
    Fuel is burnt per nesting level and per while iteration.  No proofs in this file. *)
 From Coq Require Import List NArith ZArith Bool.
 From Vy Require Import Model.Base Model.Lexer Model.Parser Model.Transpile Gen.ParserConsts Model.Values.
@@ -31,34 +36,46 @@ Definition m_inputs_pop (s : state) : xres state :=
 Definition m_stacks_push (s : state) : state := set_sdepth s (S (sdepth s)).            (* ctx.stacks.append(stack) *)
 Definition m_stacks_pop (s : state) : xres state :=                                     (* ctx.stacks.pop() *)
   match sdepth s with S n => XOk (set_sdepth s n) | O => XErr EIndex end.
-Definition m_fstack_push (s : state) : state := set_fdepth s (S (fdepth s)).            (* ctx.function_stack.append(this) *)
+Definition m_fstack_push (f : option closure) (s : state) : state := set_fstack s (f :: fstack s).   (* ctx.function_stack.append(this) *)
 Definition m_fstack_pop (s : state) : xres state :=                                     (* ctx.function_stack.pop() *)
-  match fdepth s with S n => XOk (set_fdepth s n) | O => XErr EIndex end.
+  match fstack s with _ :: r => XOk (set_fstack s r) | [] => XErr EIndex end.
 
-Definition rec_t := bool -> list struct -> state -> xres state.
+(* the four pops of a lambda, in the order both the end of the def and the lowering of X emit them *)
+Definition m_lambda_pops (s : state) : xres state :=
+  xdo s <- m_ctx_pop s;                                            (* ctx.context_values.pop() *)
+  xdo s <- m_inputs_pop s;                                         (* ctx.inputs.pop() *)
+  xdo s <- m_stacks_pop s;                                         (* ctx.stacks.pop() *)
+  m_fstack_pop s.                                                  (* ctx.function_stack.pop() *)
+
+Definition rec_t := bool -> list struct -> state -> fres.
+
+(* switching to a callee's frame and back: its own `stack`, locals and `this` *)
+Definition leave_frame (caller : state) (s : state) : state :=
+  set_this (set_locs (set_stk s (stk caller)) (locs caller)) (this caller).
 
 Section Step.
   Variable cf : cfg.
   Variable rec : rec_t.                                            (* the interpreter one fuel level down *)
-  Variable wl : bool -> value -> list struct -> list struct -> state -> xres state.   (* the `while` line *)
+  Variable wl : bool -> value -> list struct -> list struct -> state -> fres.   (* the `while` line *)
 
   (* ---- def _lambda_<id>(arg_stack, self, arity=-1, ctx=None): after the arity lines --------------------
      popped = what wrapify(arg_stack, n, ctx) popped, in popping order = the new `stack` list *)
-  Definition m_lambda_body (c : closure) (popped : list value) (s : state) : xres (value * state) :=
-    let saved := stk s in
-    let saved_locals := locs s in
-    let s := set_locs (set_stk s (rev popped)) [] in               (* a new frame; stack = wrapify(arg_stack, n, ctx) *)
-    let s := m_fstack_push s in                                    (* this = self; ctx.function_stack.append(this) *)
+  Definition m_lambda_body (self : option closure) (c : closure) (popped : list value) (s0 : state)
+    : xres (value * state) :=
+    let s := set_this (set_locs (set_stk s0 (rev popped)) []) self in   (* a new frame; stack = wrapify(..); this = self *)
+    let s := m_fstack_push self s in                               (* ctx.function_stack.append(this) *)
     let s := m_ctx_push (context_of popped) s in                   (* ctx.context_values.append(list(stack) if len(stack) != 1 else stack[0]) *)
     let s := m_inputs_push (rev popped, O) s in                    (* ctx.inputs.append([list(deep_copy(stack))[::-1], 0]) *)
     let s := m_stacks_push s in                                    (* ctx.stacks.append(stack) *)
-    xdo s <- rec true (c_body c) s;                                (* the body *)
-    let (s, res) := pop1 s in                                      (* res = [pop(stack, 1, ctx)] *)
-    xdo s <- m_ctx_pop s;                                          (* ctx.context_values.pop() *)
-    xdo s <- m_inputs_pop s;                                       (* ctx.inputs.pop() *)
-    xdo s <- m_stacks_pop s;                                       (* ctx.stacks.pop() *)
-    xdo s <- m_fstack_pop s;                                       (* ctx.function_stack.pop() *)
-    XOk (res, set_locs (set_stk s saved) saved_locals).            (* return res: back in the caller's frame *)
+    xdo (g, s) <- rec true (c_body c) s;                           (* the body *)
+    match g with
+    | SNorm =>
+        let (s, res) := pop1 s in                                  (* res = [pop(stack, 1, ctx)] *)
+        xdo s <- m_lambda_pops s;                                  (* the four pops *)
+        XOk (res, leave_frame s0 s)                                (* return res *)
+    | SRet v => XOk (v, leave_frame s0 s)                          (* an X in the body already did `return ret` *)
+    | _ => XErr ENotCore                                           (* break / continue outside a loop *)
+    end.
 
   (* ---- def VAR_<f>(arg_stack, self, arity=-1, ctx=None): `stk s` is arg_stack ---------------------------- *)
   Fixpoint m_params (ps : list param) (acc : list value) (loc : list (str * value)) (s : state)
@@ -76,22 +93,24 @@ Section Step.
   (* result: the function's whole `stack` (top first); the state is back in the caller's
      frame with what is left of arg_stack *)
   Definition m_named_body (c : closure) (s : state) : xres (list value * state) :=
-    xdo (s, parameters, loc) <- m_params (c_params c) [] [] s;     (* parameters = []; the parameter lines *)
-    let saved := stk s in
-    let saved_locals := locs s in
-    let s := set_locs (set_stk s (rev parameters)) loc in          (* stack = parameters[::] *)
+    xdo (s0, parameters, loc) <- m_params (c_params c) [] [] s;    (* parameters = []; the parameter lines *)
+    let s := set_this (set_locs (set_stk s0 (rev parameters)) loc) (Some c) in   (* stack = parameters[::] *)
     let s := m_ctx_push (VList parameters) s in                    (* ctx.context_values.append(parameters[::]) *)
     let s := m_stacks_push s in                                    (* ctx.stacks.append(stack) *)
     let s := m_inputs_push (rev parameters, O) s in                (* ctx.inputs.append([parameters[::-1], 0]) *)
-    xdo s <- rec true (c_body c) s;                                (* this = VAR_<f>; the body *)
-    xdo s <- m_ctx_pop s;                                          (* ctx.context_values.pop() *)
-    xdo s <- m_inputs_pop s;                                       (* ctx.inputs.pop() *)
-    xdo s <- m_stacks_pop s;                                       (* ctx.stacks.pop() *)
-    XOk (stk s, set_locs (set_stk s saved) saved_locals).          (* return stack *)
+    xdo (g, s) <- rec true (c_body c) s;                           (* this = VAR_<f>; the body *)
+    match g with
+    | SNorm =>
+        xdo s <- m_ctx_pop s;                                      (* ctx.context_values.pop() *)
+        xdo s <- m_inputs_pop s;                                   (* ctx.inputs.pop() *)
+        xdo s <- m_stacks_pop s;                                   (* ctx.stacks.pop() *)
+        XOk (stk s, leave_frame s0 s)                              (* return stack *)
+    | _ => XErr ENotCore
+    end.
 
   (* helpers.safe_apply(function, *args, ctx=ctx) *)
   Definition m_app : app_t := fun c args s =>
-    if core_ok_list true (c_body c) then
+    if body_ok c then
       if c_named c then
         (* function(list(args)[::-1], function, ctx=ctx)[-1] *)
         let saved := stk s in
@@ -103,20 +122,22 @@ Section Step.
       else
         (* function(list(args)[::-1], function, len(args), ctx=ctx)[-1]: `arity != -1`, so exactly
            the arguments are popped, in the order given *)
-        m_lambda_body c args s
+        m_lambda_body (Some c) c args s
     else XErr ENotCore.
 
-  (* elements.function_call once the function is popped: lhs += wrapify(top(lhs, top, ctx=ctx));
-     also `stack += VAR_<f>(stack, self=None, ctx=ctx)` *)
-  Definition m_callstk : callstk_t := fun c s =>
-    if core_ok_list true (c_body c) then
+  (* f(stack, self, ctx=ctx) with the arguments taken from `stack` and the result(s) put back:
+     elements.function_call (self = the function), `stack += VAR_<f>(stack, self=None, ctx=ctx)`,
+     `stack += this(stack, this, ctx=ctx)` *)
+  Definition m_call_on_stack (self : option closure) (c : closure) (s : state) : xres state :=
+    if body_ok c then
       if c_named c then
         xdo (fs, s1) <- m_named_body c s; XOk (set_stk s1 (fs ++ stk s1))
       else
         (* arity = -1: `elif 'stored_arity' in dir(self)` ... `else` the declared arity *)
         let (s1, popped) := popn (select_arity c None) s in
-        xdo (r, s2) <- m_lambda_body c popped s1; XOk (push r s2)
+        xdo (r, s2) <- m_lambda_body self c popped s1; XOk (push r s2)
     else XErr ENotCore.
+  Definition m_callstk : callstk_t := fun c s => m_call_on_stack (Some c) c s.
 
   (* ---- transpile_token ------------------------------------------------------------------------------------- *)
   Definition m_token (indef : bool) (t : token) (s : state) : xres state :=
@@ -136,16 +157,50 @@ Section Step.
     | _ => XErr ENotCore
     end.
 
+  (* ---- BreakStatement (Transpile.break_text) ------------------------------------------------------------------ *)
+  Definition m_break (p : option pkind) (s : state) : fres :=
+    match p with
+    | Some PFor | Some PWhile =>
+        xdo s <- m_ctx_pop s;                                      (* ctx.context_values.pop() *)
+        XOk (SBrk, s)                                              (* break *)
+    | Some PLambda =>
+        let (s, ret) := pop1 s in                                  (* ret = [pop(stack, 1, ctx=ctx)] *)
+        xdo s <- m_lambda_pops s;                                  (* the four pops *)
+        XOk (SRet ret, s)                                          (* return ret *)
+    | _ => XOk (SNorm, s)                                          (* pass *)
+    end.
+
+  (* ---- RecurseStatement (Transpile.recurse_text) -------------------------------------------------------------- *)
+  Definition m_recurse (p : option pkind) (s : state) : fres :=
+    match p with
+    | Some PIf => XOk (SNorm, s)                                   (* pass *)
+    | Some PFor | Some PWhile =>
+        xdo s <- m_ctx_pop s;                                      (* ctx.context_values.pop() *)
+        XOk (SCont, s)                                             (* continue *)
+    | Some PLambda =>                                              (* stack += this(stack, this, ctx=ctx) *)
+        match this s with
+        | Some c => norm (m_call_on_stack (Some c) c s)
+        | None => XErr EStuck
+        end
+    | Some PMonadic | Some PDyadic | Some PTriadic =>              (* stack += ctx.function_stack[-2](stack, ctx.function_stack[-2], ctx=ctx) *)
+        match nth_error (fstack s) 1 with
+        | Some (Some c) => norm (m_call_on_stack (Some c) c s)
+        | Some None => XErr EStuck
+        | None => XErr EIndex
+        end
+    | _ => norm (vy_print (VList (rev (stk s))) s)                 (* vy_print(stack, ctx=ctx) *)
+    end.
+
   (* ---- IfStatement: the nested if / else ladder (Transpile.tr, `ifs`) ------------------------------------------ *)
-  Fixpoint m_ifs (run : list struct -> state -> xres state) (bs : list (list struct)) (first : bool) (s : state)
-    : xres state :=
+  Fixpoint m_ifs (run : list struct -> state -> fres) (bs : list (list struct)) (first : bool) (s : state)
+    : fres :=
     match bs with
-    | [] => XOk s
+    | [] => XOk (SNorm, s)
     | [body] =>
         if first then
           let (s1, c) := pop1 s in                                 (* condition = pop(stack, 1, ctx=ctx) *)
           xdo b <- of_opt (truthy c);                              (* if boolify(condition, ctx): *)
-          if b then run body s1 else XOk s1
+          if b then run body s1 else XOk (SNorm, s1)
         else run body s                                            (* else: *)
     | x :: ((y :: rest) as tl) =>
         if first then
@@ -153,47 +208,60 @@ Section Step.
           xdo b <- of_opt (truthy c);                              (* if boolify(condition, ctx): *)
           if b then run x s1 else m_ifs run tl false s1
         else
-          xdo s1 <- run x s;                                       (* else:  <condition branch> *)
-          let (s2, c) := pop1 s1 in                                (*     condition = pop(stack, 1, ctx=ctx) *)
-          xdo b <- of_opt (truthy c);                              (*     if boolify(condition, ctx): *)
-          if b then run y s2 else m_ifs run rest false s2
+          xdo (g, s1) <- run x s;                                  (* else:  <condition branch> *)
+          match g with
+          | SNorm =>
+              let (s2, c) := pop1 s1 in                            (*     condition = pop(stack, 1, ctx=ctx) *)
+              xdo b <- of_opt (truthy c);                          (*     if boolify(condition, ctx): *)
+              if b then run y s2 else m_ifs run rest false s2
+          | _ => XOk (g, s1)                                       (* an early exit inside the condition branch *)
+          end
     end.
 
   (* ---- ForLoop: for VAR in iterable(pop(stack, 1, ctx=ctx), range, ctx): ------------------------------------------ *)
-  Fixpoint m_for (run : list struct -> state -> xres state) (var : option str) (body : list struct)
-           (items : list value) (s : state) : xres state :=
+  Fixpoint m_for (run : list struct -> state -> fres) (var : option str) (body : list struct)
+           (items : list value) (s : state) : fres :=
     match items with
-    | [] => XOk s
+    | [] => XOk (SNorm, s)
     | x :: r =>
         let s := match var with Some v => set_vars s (assign v x (vars s)) | None => s end in   (* VAR = next item *)
         let s := m_ctx_push x s in                                 (*     ctx.context_values.append(VAR) *)
-        xdo s <- run body s;                                       (*     <body> *)
-        xdo s <- m_ctx_pop s;                                      (*     ctx.context_values.pop() *)
-        m_for run var body r s
+        xdo (g, s) <- run body s;                                  (*     <body> *)
+        match g with
+        | SNorm => xdo s <- m_ctx_pop s; m_for run var body r s    (*     ctx.context_values.pop() *)
+        | SCont => m_for run var body r s                          (* continue: the lowering of x popped already *)
+        | SBrk => XOk (SNorm, s)                                   (* break: the lowering of X popped already *)
+        | SRet v => XOk (SRet v, s)                                (* return leaves the loop too *)
+        end
     end.
 
   (* ---- ListLiteral ---------------------------------------------------------------------------------------------------- *)
-  Fixpoint m_items (run : list struct -> state -> xres state) (its : list (list struct)) (temp : list value) (s : state)
+  Fixpoint m_items (run : list struct -> state -> fres) (its : list (list struct)) (temp : list value) (s : state)
     : xres (list value * state) :=
     match its with
     | [] => XOk (temp, s)
     | x :: r =>
-        let saved := stk s in                                      (* def list_item(s, ctx): stack = list(deep_copy(s)) *)
-        let saved_locals := locs s in
-        xdo s1 <- run x (set_locs s []);                           (*     <item>, in a frame of its own *)
-        let back := set_locs (set_stk s1 saved) saved_locals in
-        match stk s1 with
-        | [] => m_items run r temp back                            (*     if len(stack) == 0: return *)
-        | v :: _ => m_items run r (temp ++ [v]) back               (*     return pop(stack, 1, ctx=ctx); if f is not None: temp_list.append(f) *)
+        (* def list_item(s, ctx): stack = list(deep_copy(s)); the item runs in a frame of its own *)
+        xdo (g, s1) <- run x (set_locs s []);
+        match g with
+        | SNorm =>
+            let back := set_locs (set_stk s1 (stk s)) (locs s) in
+            match stk s1 with
+            | [] => m_items run r temp back                        (*     if len(stack) == 0: return *)
+            | v :: _ => m_items run r (temp ++ [v]) back           (*     return pop(stack, 1, ctx=ctx); if f is not None: temp_list.append(f) *)
+            end
+        | _ => XErr ENotCore
         end
     end.
 
   (* wrapped operand of a modifier: the def, `stack.append(_lambda_<id>)`, then function_X = pop(stack, 1, ctx) *)
   Definition m_operand (x : struct) (s : state) : state * value := pop1 (push (VFun (operand_closure x)) s).
 
-  Definition m_step (indef : bool) (x : struct) (s : state) : xres state :=
+  Definition m_step (indef : bool) (x : struct) (s : state) : fres :=
     match x with
-    | SGeneric t => m_token indef t s
+    | SGeneric t => norm (m_token indef t s)
+    | SBreak p => m_break p s
+    | SRecurse p => m_recurse p s
     | SIf bs => m_ifs (rec indef) bs true s
     | SFor names body =>
         match names with
@@ -209,13 +277,17 @@ Section Step.
             else XErr ENotCore
         end
     | SWhile c b =>
-        xdo s1 <- rec indef c s;                                   (* <condition> *)
-        let (s2, v) := pop1 s1 in                                  (* condition = pop(stack, 1, ctx=ctx) *)
-        wl indef v c b s2                                          (* while boolify(condition, ctx): ... *)
+        xdo (g, s1) <- rec indef c s;                              (* <condition> *)
+        match g with
+        | SNorm =>
+            let (s2, v) := pop1 s1 in                              (* condition = pop(stack, 1, ctx=ctx) *)
+            wl indef v c b s2                                      (* while boolify(condition, ctx): ... *)
+        | _ => XErr ENotCore                                       (* break / continue before the `while`: SyntaxError *)
+        end
     | SFnCall n =>                                                 (* stack += VAR_<f>(stack, self=None, ctx=ctx) *)
         if name_ok (keep re_keep_fncall n) then
           match lookup_var (keep re_keep_fncall n) s with
-          | Some (VFun c) => m_callstk c s
+          | Some (VFun c) => norm (m_call_on_stack None c s)
           | Some _ => XErr EStuck
           | None => XErr EName
           end
@@ -223,33 +295,33 @@ Section Step.
     | SFnDef n ps body =>                                          (* def VAR_<f>(arg_stack, self, arity=-1, ctx=None): *)
         if negb indef && name_ok (keep re_keep_fndef n) then
           match params_of ps with
-          | Some params => XOk (set_vars s (assign (keep re_keep_fndef n) (VFun (mk_named params body)) (vars s)))
+          | Some params => XOk (SNorm, set_vars s (assign (keep re_keep_fndef n) (VFun (mk_named params body)) (vars s)))
           | None => XErr ENotCore
           end
         else XErr ENotCore
     | SLambda a body =>                                            (* def _lambda_<id>...; _lambda_<id>.arity = a; stack.append(_lambda_<id>) *)
-        XOk (push (VFun (mk_lambda a body)) s)
+        XOk (SNorm, push (VFun (mk_lambda a body)) s)
     | SLamOp o body =>
         let s1 := push (VFun (mk_lambda (Some 1) body)) s in
         match o with
-        | OpMap => elem_sem cf m_app m_callstk 77%N s1             (* the template of M *)
-        | OpFilter => elem_sem cf m_app m_callstk 70%N s1          (* the template of F *)
-        | OpSort => elem_sem cf m_app m_callstk 7777%N s1          (* the template of ṡ *)
+        | OpMap => norm (elem_sem cf m_app m_callstk 77%N s1)      (* the template of M *)
+        | OpFilter => norm (elem_sem cf m_app m_callstk 70%N s1)   (* the template of F *)
+        | OpSort => norm (elem_sem cf m_app m_callstk 7777%N s1)   (* the template of ṡ *)
         end
     | SList its =>
         xdo (temp, s1) <- m_items (rec true) its [] s;             (* temp_list = []; the items *)
-        XOk (push (VList temp) s1)                                 (* stack.append(list(deep_copy(temp_list))) *)
+        XOk (SNorm, push (VList temp) s1)                          (* stack.append(list(deep_copy(temp_list))) *)
     | SMod1 m a =>
         if mem m mod1_keys then
           let (s1, fa) := m_operand a s in
-          match fa with VFun ca => mod1_sem cf m_app m_callstk m ca s1 | _ => XErr EStuck end
+          match fa with VFun ca => norm (mod1_sem cf m_app m_callstk m ca s1) | _ => XErr EStuck end
         else XErr ENotCore
     | SMod2 m a b =>
         if mem m mod2_keys then
           let (s1, fa) := m_operand a s in
           let (s2, fb) := m_operand b s1 in
           match fa, fb with
-          | VFun ca, VFun cb => mod2_sem m_app m ca cb s2
+          | VFun ca, VFun cb => norm (mod2_sem m_app m ca cb s2)
           | _, _ => XErr EStuck
           end
         else XErr ENotCore
@@ -259,28 +331,42 @@ End Step.
 
 (* while boolify(condition, ctx):
        ctx.context_values.append(condition); <body>; ctx.context_values.pop()
-       <condition, emitted a second time>; condition = pop(stack, 1, ctx=ctx) *)
-Fixpoint exec (cf : cfg) (fuel : nat) (indef : bool) (p : list struct) (s : state) : xres state :=
+       <condition, emitted a second time>; condition = pop(stack, 1, ctx=ctx)
+   `continue` goes back to the test of the OLD condition value *)
+Fixpoint exec (cf : cfg) (fuel : nat) (indef : bool) (p : list struct) (s : state) : fres :=
   match fuel with
   | O => XFuel
   | S f => seq_run (m_step cf (exec cf f) (mloop cf f) indef) p s
   end
-with mloop (cf : cfg) (fuel : nat) (indef : bool) (v : value) (c b : list struct) (s : state) : xres state :=
+with mloop (cf : cfg) (fuel : nat) (indef : bool) (v : value) (c b : list struct) (s : state) : fres :=
   match fuel with
   | O => XFuel
   | S f =>
       xdo t <- of_opt (truthy v);
       if t then
         let s := m_ctx_push v s in
-        xdo s <- exec cf f indef b s;
-        xdo s <- m_ctx_pop s;
-        xdo s <- exec cf f indef c s;
-        let (s, v') := pop1 s in
-        mloop cf f indef v' c b s
-      else XOk s
+        xdo (g, s) <- exec cf f indef b s;
+        match g with
+        | SNorm =>
+            xdo s <- m_ctx_pop s;
+            xdo (g2, s) <- exec cf f indef c s;
+            match g2 with
+            | SNorm => let (s, v') := pop1 s in mloop cf f indef v' c b s
+            | _ => XErr ENotCore
+            end
+        | SBrk => XOk (SNorm, s)
+        | SCont => mloop cf f indef v c b s
+        | SRet r => XOk (SRet r, s)
+        end
+      else XOk (SNorm, s)
   end.
 
 (* main.execute_vyxal: Context(), stack, ctx.inputs[0][0] = inputs, the two ctx.stacks.append(stack),
-   exec(code), then the implicit output *)
+   exec(code), then the implicit output.  An early exit that reaches the module level is a
+   SyntaxError / has nothing to leave *)
 Definition run_machine (fl : flag) (fuel : nat) (inputs : list value) (p : list struct) : xres state :=
-  xdo s <- exec (cfg_of fl) fuel false p (init_state fl inputs); finish (m_app (exec (cfg_of fl) fuel)) fl s.
+  xdo (g, s) <- exec (cfg_of fl) fuel false p (init_state fl inputs);
+  match g with
+  | SNorm => finish (m_app (exec (cfg_of fl) fuel)) fl s
+  | _ => XErr ENotCore
+  end.
